@@ -25,7 +25,15 @@ std::unique_ptr<ndsparse> splinetable<Alloc>::grideval(const DoubleContCont& coo
 	for (size_t i=0; i<size; i++)
 		if (coefficients[i] != 0)
 			nnz++;
-	std::unique_ptr<ndsparse> nd(new ndsparse(nnz, ndim));
+	//An ndsparse cannot be created without entries, so reserve one even for a table of zeros
+	std::unique_ptr<ndsparse> nd(new ndsparse(std::max(nnz,size_t(1)), ndim));
+	if (nnz == 0) {
+		//all coefficients vanish, and so does the spline everywhere: nothing to list
+		nd->rows = 0;
+		for (unsigned int dim = 0; dim < ndim; dim++)
+			nd->ranges[dim] = coords[dim].size();
+		return nd;
+	}
 	{
 		std::vector<unsigned int> indices(ndim);
 		for (size_t i=0; i<size; i++) {
